@@ -219,7 +219,7 @@ def seq_to_set(v: Val, ex=None, st=None) -> Val:
     if ex is not None and st is not None and getattr(ex.c, "seq_positions", False):
         seq_member_facts(st, lift(v))
         seq_position_witness(st, lift(v), t.elem.sort())
-    return Val(T.Set(t.elem), z3.Lambda([x], seq_contains_elem(lift(v), x)))
+    return Val(T.Set(t.elem), z3.Lambda([x], seq_contains_elem(lift(v), x)), meta=("from_seq", lift(v)))
 
 
 def carrier_info(v: Val):
@@ -306,7 +306,20 @@ def _len(ex, st, args, kwargs, node):
             raise Unsupported(f"len() of {v.ty}", node)
         return cs.length(ex, st, v)
     if isinstance(v.ty, T.Set) and not v.is_py:
-        raise Unsupported("len() of a symbolic set", node)
+        # cardinality: an uninterpreted function of the set with the facts that hold for EVERY finite set (>= 0, zero iff
+        # empty); when the set was built from a sequence (`set(xs)`, `{x for x in xs}`): at most len(xs), and exactly
+        # len(xs) when the elements of xs are pairwise distinct.  Nothing else is known (sound, far from complete).
+        S = lift(v)
+        card = z3.Function("card_" + T._mangle(v.ty.elem), S.sort(), z3.IntSort())
+        n = card(S)
+        assume_theorem(st, n >= 0)
+        assume_theorem(st, (n == 0) == (S == z3.K(v.ty.elem.sort(), z3.BoolVal(False))))
+        src = v.meta[1] if isinstance(v.meta, tuple) and len(v.meta) == 2 and v.meta[0] == "from_seq" else None
+        if src is not None:
+            i, j = z3.Int(fresh_name("ci")), z3.Int(fresh_name("cj"))
+            assume_theorem(st, n <= z3.Length(src))
+            assume_theorem(st, z3.Implies(z3.ForAll([i, j], z3.Implies(z3.And(0 <= i, i < j, j < z3.Length(src)), src[i] != src[j])), n == z3.Length(src)))
+        return Val(T.INT, n)
     if isinstance(v.ty, T.Dict) and not v.is_py:
         dict_wf(st, v.ty, lift(v), ex)
     return ops.length(v)
@@ -778,6 +791,8 @@ def _isinstance(ex, st, args, kwargs, node):
         m = {T.STR: str, T.INT: int, T.REAL: float, T.BOOL: bool}
         if t in m:
             return any(issubclass(m[t], p) for p in pys)
+        if isinstance(t, T.Enum):
+            return any(issubclass(t.pycls(), p) for p in pys)
         if isinstance(t, T.TupleOf):
             return any(issubclass(tuple, p) for p in pys)
         if isinstance(t, T.List):
@@ -957,6 +972,7 @@ def _need(args, n, node, name):
 
 def mutate(ex, st, recv: Val, name, args, kwargs, node):
     """In-place container method: returns (new receiver value, call result)."""
+    args = [ex.resolve_union(a, st) for a in args]
     rt_ = recv.ty.inner if isinstance(recv.ty, T.Opt) else recv.ty
     as_set = (isinstance(rt_, T.Set) or (recv.is_py and isinstance(recv.py, (set, frozenset)))) and name in ("update", "difference_update", "intersection_update", "symmetric_difference_update")
     args = [materialize_set(ex, a) if as_set else materialize(ex, a) for a in args]
@@ -1158,6 +1174,7 @@ def _as_set(ex, st, a: Val, t, node):
 
 def value_method(ex, st, recv: Val, name, args, kwargs, node) -> Val:
     """Non-mutating methods of str / list / set / dict / tuple values."""
+    args = [ex.resolve_union(a, st) for a in args]  # Union arguments whose alternative the path fixes
     if is_const(recv) and all(is_const(a) for a in args) and all(is_const(v) for v in kwargs.values()) and not isinstance(recv.py, (list, dict, set)) :
         try:
             r = getattr(recv.py, name)(*[a.py for a in args], **{k: v.py for k, v in kwargs.items()})
